@@ -196,9 +196,13 @@ theorem lazyEntry_eq (step : W → S → W) (detect : W → M) (cA : List Nat) (
   simp only [Option.map_some, expectedEntry]
   rw [flatten_map_splitBy _ cA ws hcover]
 
-/-- **C01 (multislice transform): lazy = eager**, for every member-wise step/detect kernel, every batch of incident
-waves, every chunking of the batch (every `max_batch`), every number of configurations, every exit-plane tuple of the
-documented form, at every entry of the result. -/
+/-- **Block-structure model of the multislice transform: lazy = eager.**  In the model (`Blockwise.lazyEntry`: one
+configuration per block, the batch split by an arbitrary chunking, every block runs the loop model, blocks concatenated;
+batch kernels member-wise *by definition*, `stepB`/`detectB`) every entry of the lazy result equals the entry of the
+eager result, for every batch, chunking (every `max_batch`), number of configurations and exit-plane tuple of the documented
+form.  This is a statement about the partition/reassembly structure and the loop model — it does not cover argument
+forwarding to the blocks (see `algorithm_forwarded_to_blocks`), dropped-axes assembly beyond the dimension count
+(`pack_ndims_eq_out_ndims`), `reduce_ensemble` or axes metadata, which are tied by correspondence and the numeric oracle. -/
 theorem lazy_eq_eager (step : W → S → W) (detect : W → M) (cA : List Nat) (ws : List W) (p : Pot S) (ent : Bool)
     (ps : List Nat) (hp : p.planes = natPlanes ent ps) (hn : ∀ cfg ∈ p.configs, cfg.length = p.nslices)
     (hshape : p.configs.length = 1 ∨ p.ensAxis = true)
@@ -343,7 +347,9 @@ theorem lazy_eq_eager2 (step : W → S → W) (detect : W → M) (cX cY : List N
 `multi_output_blockwise` declares for the blockwise output — for every number of transform argument blocks, every total
 number of their dimensions and every array dimensionality (both expressions are regenerated from abtem/array.py; before
 fix f6c500df the packing counted argument *blocks*, so a block with two dimensions — configurations × exit planes — made
-dask's concatenation along dropped axes fail). -/
+dask's concatenation along dropped axes fail).  The identification of Python's `transform_ndims` with `new_ndim`
+(both: sum of the dimensions of the transform argument blocks) is made by the site's parameter renaming, i.e. trusted: this is
+a regression tripwire, not a derivation. -/
 theorem pack_ndims_eq_out_ndims (numArgs sumArgNdims arrayNdim : Int) :
     packNdims numArgs sumArgNdims arrayNdim = outNdim sumArgNdims arrayNdim := by
   simp [packNdims, outNdim]
@@ -355,6 +361,14 @@ theorem fails_together (step : W → S → W) (detect : W → M) (c0 : Nat) (cA 
   constructor
   · simp [eagerEntry, multisliceAndDetect, hp, getE]
   · simp [lazyEntry, multisliceAndDetect, blockPot, hp, getE, splitBy]
+
+/-- Every keyword the user passes to the multislice function (`algorithm=`, `return_backscattered=`, …) is forwarded to the
+per-block transform: the `partial(…)` built by `MultisliceTransform._from_partitioned_args` (keyword list regenerated from the
+source) forwards the whole `**self._multislice_func_kwargs` dictionary, together with the detectors and the multislice
+function. (A regression tripwire over generated data: replacing the dictionary by hand-picked flags breaks this proof.) -/
+theorem algorithm_forwarded_to_blocks :
+    "**self._multislice_func_kwargs" ∈ forwardedToBlocks ∧ "detectors" ∈ forwardedToBlocks ∧
+      "multislice_func" ∈ forwardedToBlocks ∧ "potential_partial" ∈ forwardedToBlocks := by decide
 
 /-- the multislice transform partitions the configurations one per block and keeps the exit planes in one chunk -/
 theorem default_chunks (nens nplanes : Nat) :
@@ -385,5 +399,11 @@ example : lazyEntry hstep hdetect [1, 2] [[100], [101], [102]] ⟨true, natPlane
     = some [[100, 3, 4], [101, 3, 4], [102, 3, 4]] := by decide
 example : eagerEntry hstep hdetect [[100], [101], [102]] ⟨true, natPlanes true [1], 2, [[1, 2], [3, 4]]⟩ 1 1
     = some [[100, 3, 4], [101, 3, 4], [102, 3, 4]] := by decide
+
+/-- non-vacuity with the hypotheses of `lazy_eq_eager` instantiated -/
+example : lazyEntry hstep hdetect [1, 2] [[100], [101], [102]] ⟨true, natPlanes true [1], 2, [[1, 2], [3, 4]]⟩ 1 1
+    = eagerEntry hstep hdetect [[100], [101], [102]] ⟨true, natPlanes true [1], 2, [[1, 2], [3, 4]]⟩ 1 1 :=
+  lazy_eq_eager hstep hdetect [1, 2] [[100], [101], [102]] ⟨true, natPlanes true [1], 2, [[1, 2], [3, 4]]⟩ true [1] rfl
+    (by decide) (Or.inr rfl) (by decide) (by decide) (Or.inl rfl) (by decide) 1 (by decide) 1 (by decide)
 
 end AbtemVerif.Props.C01
